@@ -62,7 +62,7 @@ Definition obs_len (obs : list Z) : nat :=
   end.
 
 (* property decided on the IMPLEMENTATION's observable: bounds on both runs, then the
-   metamorphic clause (5) between them *)
+   metamorphic clauses (5: consumption raised, 6: reclaim threshold lowered) between them *)
 Definition prop_case (inp obs : list Z) : Z :=
   let '(a, b) := decode2 inp in
   let oa := firstn (obs_len obs) obs in
@@ -72,6 +72,7 @@ Definition prop_case (inp obs : list Z) : Z :=
   if negb (ca =? 0) then ca
   else if negb (cb =? 0) then cb
   else if negb (antitone_code a b oa ob =? 0) then 5
+  else if negb (reclaim_code a b oa ob =? 0) then 6
   else if negb (batch_code true a oa =? 0) then batch_code true a oa
   else batch_code true b ob.
 
